@@ -225,7 +225,7 @@ PROPS["C09"] = dict(
 
 PROPS["C04"] = dict(
     modules=["contracts.sched_sql", "contracts.C12_limits", "contracts.C10_dispatch", "contracts.C03_inputs",
-             "contracts.C13_hash", "contracts.C04_noop", "contracts.C04_bounded"],
+             "contracts.C13_hash", "contracts.C04_noop", "contracts.C04_watcher", "contracts.C04_bounded"],
     decided=["reset_interrupted_steps changes no step state and marks nothing pending when no step is RUNNING, CHECKING or "
              "FAILED", "Executor._run_hash_job applies a recomputed file hash only if it differs from the stored one or the "
              "cause is CONFIRMED", "FileHash.refreshed returns the stored hash when mode, mtime, size and inode are unchanged "
